@@ -329,3 +329,19 @@ Theorem C17_locked_reader_waits :
   exists st, trun (tinit 2) [(0, TEnter w_defvar); (0, TLeave); (1, TEnter r_locked)] = Some st /\ holder st = Some 1.
 Proof. exact locked_reader_waits. Qed.
 Print Assumptions C17_locked_reader_waits.
+
+(* "updates to a synchronized instance ... are not lost / the interpreter's tables are never corrupted": the instance
+   lock.  REFUTED when a slot read of a synchronized instance does not take the lock: it is inside the slot map (a Go
+   map) together with a writer.  (With the lock, C17_locked_table_accesses_never_overlap applies as it stands.) *)
+Theorem C17_unlocked_slot_read_overlaps_write_refuted :
+  exists st, trun (tinit 2) [(0, TEnter w_slot); (1, TEnter r_slot_unlocked)] = Some st /\
+             nth_error (within st) 0 = Some (Some w_slot) /\ nth_error (within st) 1 = Some (Some r_slot_unlocked) /\
+             conflict w_slot r_slot_unlocked = true.
+Proof. exact unlocked_slot_read_overlaps_write_refuted. Qed.
+Print Assumptions C17_unlocked_slot_read_overlaps_write_refuted.
+
+(* the table the per-run probes are compared with: an operation must wait for the instance lock exactly when the
+   instance is synchronized and the operation reads or writes its slot map *)
+Theorem C17_must_wait_spec : forall o sy, must_wait o sy = true <-> (sy = true /\ iop_uses o <> []).
+Proof. exact must_wait_spec. Qed.
+Print Assumptions C17_must_wait_spec.
